@@ -97,6 +97,10 @@ impl EdgeLabel for char {
                 &&& final(self).len == old(self).len + (if add_shadowed(*old(self), pattern@) { 0int } else { 1int })
                 &&& pattern@.len() > 0 && !seen(*old(self), pattern@)
                 &&& forall|q: Seq<L>| #[trigger] seen(*final(self), q) <==> (seen(*old(self), q) || q == pattern@)
+                &&& forall|q: Seq<L>| #[trigger] is_registered(*final(self), q) <==> (is_registered(*old(self), q) || (q == pattern@ && !add_shadowed(*old(self), pattern@)))
+                // values (C06): the new pattern carries the value passed in, earlier ones keep theirs
+                &&& !add_shadowed(*old(self), pattern@) ==> is_registered(*final(self), pattern@) && reg_out(*final(self), pattern@).unwrap().0 == value
+                &&& forall|q: Seq<L>| is_registered(*old(self), q) ==> #[trigger] reg_out(*final(self), q) == reg_out(*old(self), q)
             },
             Err(e) => match e {
                 DaachorseError::InvalidArgument => pattern@.len() == 0 || byte_len(pattern@) > u32::MAX,
@@ -207,6 +211,7 @@ impl EdgeLabel for char {
             if !(n0.match_kind is LeftmostFirst) { }
         }
         lemma_add_finish_ok(n0, cur, *self, pat, sid, (value, pattern_len));
+        lemma_add_values(n0, cur, *self, pat, sid, (value, pattern_len));
         lemma_reach_finish(n0, cur, *self, pat, sid, (value, pattern_len));
     }
 //@}
@@ -222,6 +227,8 @@ impl EdgeLabel for char {
             Ok(_) => {
                 &&& add_inv(*final(self)) && reach_ok(*final(self)) && !seen(*old(self), pattern@)
                 &&& forall|q: Seq<L>| #[trigger] seen(*final(self), q) <==> (seen(*old(self), q) || q == pattern@)
+                &&& forall|q: Seq<L>| #[trigger] reg_out(*final(self), q) == reg_out(*old(self), q)
+                &&& forall|q: Seq<L>| #[trigger] is_registered(*final(self), q) == is_registered(*old(self), q)
             },
             Err(e) => e is DuplicatePattern && seen(*old(self), pattern@),
         }
@@ -282,6 +289,7 @@ impl EdgeLabel for char {
         assert(trie_ok(n0));
         assert(trie_ok(fin));
         lemma_reach_same_states(n0, fin);
+        lemma_same_states_values(n0, fin);
     }
 //@}
 //@endimpl
